@@ -25,7 +25,7 @@ pub fn prop() -> Prop {
          is Ok and equal (PartialEq) to the original, and printing the re-parsed value gives the identical text. \
          Non-trivial: the case has a named fragment or an inline fragment with a type condition; distinct by text+config.",
     )
-    .random("roundtrip", check, |t| if t == Tier::Quick { 60_000 } else { 1_200_000 }, |t| if t == Tier::Quick { 700 } else { 1000 })
+    .random("roundtrip", check, |t| if t == Tier::Quick { 50_000 } else { 1_000_000 }, |t| if t == Tier::Quick { 700 } else { 1000 })
     .case_timeout(120)
     .assumptions(&[
         "indent prefixes are whitespace-only strings (spaces/tabs), as the property states",
@@ -135,6 +135,13 @@ fn diff_op(a: &Operation, b: &Operation) -> Option<String> {
     diff_set(&a.selection_set, &b.selection_set).map(|d| format!("operation/{}", d))
 }
 
+/// Root-cause part of a difference path: the construct kind at the difference (its last two
+/// segments), so that the signature does not depend on how deeply the construct is nested.
+fn tail2(path: &str) -> String {
+    let segs: Vec<&str> = path.split('/').collect();
+    segs[segs.len().saturating_sub(2)..].join("/")
+}
+
 fn diff_doc(a: &ExecutableDocument, b: &ExecutableDocument) -> String {
     match (&a.operations.anonymous, &b.operations.anonymous) {
         (Some(x), Some(y)) => {
@@ -197,7 +204,7 @@ fn doc_roundtrip(schema_text: &str, doc_text: &str, cfg: &Cfg, ctx: &mut Ctx) ->
     };
     if *d1 != *d2 {
         let at = diff_doc(&d1, &d2);
-        return Outcome::fail(format!("C19|doc|not-equal|{}", at), format!("re-parsed document differs at {}\n{}", at, tail(&t1)));
+        return Outcome::fail(format!("C19|doc|not-equal|{}", tail2(&at)), format!("re-parsed document differs at {}\n{}", at, tail(&t1)));
     }
     let t2 = cfg.apply(d2.serialize());
     if t1 != t2 {
@@ -227,7 +234,7 @@ fn field_set_roundtrip(schema_text: &str, ty: &str, fs_text: &str, cfg: &Cfg, ct
     };
     if f1.selection_set != f2.selection_set {
         let at = diff_set(&f1.selection_set, &f2.selection_set).unwrap_or_else(|| "unlocated".into());
-        return Outcome::fail(format!("C19|fieldset|not-equal|{}", at), format!("re-parsed field set differs at {}\n{}", at, tail(&t1)));
+        return Outcome::fail(format!("C19|fieldset|not-equal|{}", tail2(&at)), format!("re-parsed field set differs at {}\n{}", at, tail(&t1)));
     }
     let t2 = cfg.apply(f2.serialize());
     if t1 != t2 {
@@ -254,7 +261,7 @@ fn mixed_roundtrip(text: &str, cfg: &Cfg, ctx: &mut Ctx) -> Outcome {
     };
     if *d1 != *d2 {
         let at = diff_doc(&d1, &d2);
-        return Outcome::fail(format!("C19|mixed|document-not-equal|{}", at), format!("re-parsed document differs at {}\n{}", at, tail(&t1)));
+        return Outcome::fail(format!("C19|mixed|document-not-equal|{}", tail2(&at)), format!("re-parsed document differs at {}\n{}", at, tail(&t1)));
     }
     if *s1 != *s2 {
         return Outcome::fail("C19|mixed|schema-not-equal", format!("re-parsed schema differs\n{}", tail(&t1)));
